@@ -16,6 +16,9 @@ CLAIMED = {
  "C05": ("exploration", "4 C05", "rule-based state machine against a reassembly model (component) + exhaustive cut subsets + Hypothesis schedules end to end",
          "A RuleBasedStateMachine delivers segments of a drawn two-direction record stream in order, early (displacement <= 4) or duplicated, with ISNs incl. wrap, and after every step compares the records Session hands to its record handler with the model; all cut subsets of short streams are enumerated; end-to-end schedules must export the ground truth.",
          "trusted: reassembly model in checks/c05.py; domain: causal reordering, exact duplicates; open finding F05r (reordering inside the ClientHello) excluded by construction and probed"),
+ "C06": ("exploration", "4 C06", "validity predicate over generated captures and options: strict pcapng reader, frame parser and TCP reassembler; complete (record length x carrying packets) grid",
+         "No expected bytes are needed: the output of every generated capture (decryptable, undecryptable, foreign traffic, empty) under every option mix must satisfy the strict reader/parser/reassembler; the n x k splitting grid is enumerated completely.",
+         "trusted: the validity predicate in lib/netio.py and lib/oracle.py"),
  "C09": ("exploration", "4 C09", "metamorphic testing: output bytes under generated key-delivery variants vs. the canonical key log (Hypothesis; subprocess runs for the no -s form)",
          "Each generated scenario is exported with its canonical key log and with a drawn delivery variant (order, line ends, decorations, hex case, file / DSB / both / split / partitioned); the output files must be byte-identical.",
          "trusted: lib/scenario.keylog_text (decorations), lib/netio DSB writer"),
@@ -25,6 +28,9 @@ CLAIMED = {
  "C11": ("exploration", "4 C11", "differential testing of the checksum routines against a reference fold with boundary-steered sums + metamorphic end-to-end relation (-c vs. filtered capture)",
          "Sums are steered exactly onto the carry/fold boundaries (free TCP window/urgent fields, free UDP payload word), verdicts are compared with the receiver rule for IPv4/IPv6, odd/even lengths; end to end the export with -c must equal the export of the capture without the corrupted packets.",
          "trusted: lib/netio.csum16 / unfolded_sum; 'bad' is defined by the receiver's verification"),
+ "C12": ("exploration", "4 C12", "metamorphic testing: same packets in generated container variants vs. the reference container (Hypothesis)",
+         "The same scenario with exact rational capture times is written as pcapng LE/BE with every if_tsresol class, offsets and unrelated blocks, and as legacy pcap (micro/nanosecond, LE/BE); exported packets and timestamps must agree with the reference container, byte-identically when the times are whole microseconds.",
+         "trusted: lib/netio pcap/pcapng writers"),
  "C14": ("exploration", "4 C14", "exhaustive enumeration of all 65536 code points against an independent registry copy and name parser",
          "The input domain is finite and is enumerated completely (both resolvers), so for this tree the result is exact relative to the registry copy and the name grammar; it is still a test of the resolvers, not a proof about the registry.",
          "trusted: data/iana_tls_cipher_suites.json (provenance data/build_registry.py) and the token grammar of lib/tlsref.Suite"),
@@ -34,6 +40,9 @@ CLAIMED = {
  "C17": ("exploration", "4 C17", "round-trip against a reference frame encoder (Hypothesis), exhaustive short strings, coverage-guided fuzzing (atheris) with a step-count termination oracle",
          "Well-formed sequences of every frame type and varint width are round-tripped; termination on arbitrary bytes is decided by a deterministic step count, for all strings up to 2 bytes exhaustively and by random, mutation-based and coverage-guided search up to 1500 bytes.",
          "trusted: lib/quicref frame encoders (RFC 9000 19, RFC 9221); step bound 60*len+200 Python calls"),
+ "C18": ("exploration", "4 C18", "metamorphic repetition: sha256 of the output across fresh processes (hash seeds, cwd, environment) and across un-reset in-process runs",
+         "Each generated scenario (emphasis on QUIC with several, prefix-related CIDs and several sessions) is exported by 4 fresh processes with different PYTHONHASHSEED / cwd / environment and by repeated run() calls in one process (A, A, B, A); all outputs for the same input must be byte-identical.",
+         "trusted: nothing beyond the runner; a finite sample of hash seeds"),
 }
 ALL = ["C%02d" % i for i in range(1, 19)]
 def main():
